@@ -118,6 +118,21 @@ class Capture:
         self.__dict__.update(attrs)
 
 
+class EnumMember:
+    _cache: dict = {}
+
+    def __new__(cls, owner, name, value=None):
+        key = (owner.qualname, name)
+        if key not in cls._cache:
+            obj = super().__new__(cls)
+            obj.owner, obj.name, obj.value = owner, name, value
+            cls._cache[key] = obj
+        return cls._cache[key]
+
+    def __repr__(self):
+        return f"<{self.owner.name}.{self.name}>"
+
+
 class Sym:
     """a named symbol: type objects and module members that only appear in isinstance / issubdtype tests"""
 
@@ -275,6 +290,15 @@ class NP:
         return x.transpose(perm)
 
 
+class _Itertools:
+    import itertools as _it
+
+    accumulate = staticmethod(lambda it, *a, **k: list(_Itertools._it.accumulate(it, *a, **k)))
+    chain = staticmethod(lambda *its: [x for it in its for x in it])
+    product = staticmethod(lambda *its, **k: list(_Itertools._it.product(*its, **k)))
+    repeat = staticmethod(lambda x, n: [x] * n)
+
+
 class _Math:
     @staticmethod
     def isnan(x):
@@ -314,9 +338,89 @@ class Interp:
         self.prog = prog
         self.constructors = constructors or {}  # class qualname -> callable(args, kwargs) that stands for the constructor
         self.np_extra = np_extra or {}  # numpy member name -> callable
+        self._nt_types: dict = {}
+        self._globals: dict = {}
         self.steps = 0
         self.max_steps = max_steps
         self.max_depth = max_depth
+
+    # ------------------------------------------------------------------ classes of the analysed package
+    def is_dataclass(self, c) -> bool:
+        for d in c.node.decorator_list:
+            nm = d.func if isinstance(d, ast.Call) else d
+            if (isinstance(nm, ast.Name) and nm.id == "dataclass") or (isinstance(nm, ast.Attribute) and nm.attr == "dataclass"):
+                return True
+        return False
+
+    def fields_of(self, c):
+        out = []
+        for k in reversed(self.prog.mro(c)):
+            for name, ann in k.annotations.items():
+                if "ClassVar" in ast.unparse(ann):
+                    continue
+                if name not in [n for n, _ in out]:
+                    out.append((name, k))
+        return out
+
+    def make_record(self, c, args, kwargs, fn, depth):
+        fields = self.fields_of(c)
+        vals = {}
+        if len(args) > len(fields):
+            raise Raised("TypeError")
+        for (name, _k), v in zip(fields, args):
+            vals[name] = v
+        for name, v in kwargs.items():
+            if name in vals or name not in [n for n, _ in fields]:
+                raise Raised("TypeError")
+            vals[name] = v
+        for name, k in fields:
+            if name in vals:
+                continue
+            if name not in k.attrs:
+                raise Raised("TypeError")
+            d = k.attrs[name]
+            if isinstance(d, ast.Call) and getattr(d.func, "id", getattr(d.func, "attr", "")) == "field":
+                fac = next((kw.value for kw in d.keywords if kw.arg == "default_factory"), None)
+                dv = next((kw.value for kw in d.keywords if kw.arg == "default"), None)
+                if fac is not None:
+                    vals[name] = self.apply(self.expr(fac, {}, self.module_fn(k), depth), [], depth)
+                elif dv is not None:
+                    vals[name] = self.expr(dv, {}, self.module_fn(k), depth)
+                else:
+                    raise Raised("TypeError")
+            else:
+                vals[name] = self.expr(d, {}, self.module_fn(k), depth)
+        if "NamedTuple" in c.external_bases:
+            import collections
+
+            T = self._nt_types.get(c.qualname)
+            if T is None:
+                T = collections.namedtuple(c.name.lstrip("_") or "Record", [n for n, _ in fields], rename=True)
+                T.__geolint_cls__ = c
+                self._nt_types[c.qualname] = T
+            return T(*[vals[n] for n, _ in fields])
+        return Obj(__cls__=c, **vals)
+
+    def module_fn(self, c):
+        """a function context whose names resolve in the module of class c"""
+        for f in self.prog.package_functions():
+            if f.module is c.module:
+                return f
+        raise Unsupported("module without functions")
+
+    def class_attr(self, c, attr: str, fn, depth):
+        m = self.prog.lookup(c, attr)
+        if m is not None:
+            if m.is_classmethod:
+                return ("boundmethod", m, c)
+            return m  # plain function / staticmethod reached through the class
+        hit = self.prog.class_attr(c, attr)
+        if hit is not None:
+            owner, val = hit
+            if any(b == "Enum" or b.endswith("Enum") for b in owner.external_bases):
+                return EnumMember(owner, attr, val.value if isinstance(val, ast.Constant) else None)
+            return self.expr(val, {}, self.module_fn(owner), depth)
+        raise Unsupported(f"class attribute {c.name}.{attr}")
 
     def isinstance_(self, v, t) -> bool:
         from geolint.model import ClassInfo as _CI
@@ -551,6 +655,18 @@ class Interp:
             return self.prog.functions[q]
         if q in self.prog.classes:
             return self.prog.classes[q]
+        if nm == "itertools" or q == "itertools":
+            return _Itertools
+        if q and q.startswith("itertools."):
+            return getattr(_Itertools, q.split(".", 1)[1], None) or (_ for _ in ()).throw(Unsupported(f"itertools member {q}"))
+        if q:
+            gv = self.prog.global_value(q)
+            if gv is not None:
+                if q not in self._globals:
+                    m_, val = gv
+                    ctx = next((f for f in self.prog.package_functions() if f.module is m_), fn)
+                    self._globals[q] = self.expr(val, {}, ctx, 0)
+                return self._globals[q]
         if q in ("numpy",):
             return NP
         if q in ("math",):
@@ -658,6 +774,10 @@ class Interp:
                          self.expr(e.step, env, fn, depth) if e.step else None)
         if isinstance(e, ast.Attribute):
             obj = self.expr(e.value, env, fn, depth)
+            if obj is _Itertools:
+                if hasattr(obj, e.attr):
+                    return getattr(obj, e.attr)
+                raise Unsupported(f"itertools member {e.attr}")
             if obj is NP or obj is _Math:
                 if obj is NP and e.attr in self.np_extra:
                     return self.np_extra[e.attr]
@@ -672,6 +792,22 @@ class Interp:
 
             if isinstance(obj, _CI2) and e.attr == "__new__":
                 return lambda c, *a, **k: Obj(__cls__=c)
+            if isinstance(obj, _CI2):
+                return self.class_attr(obj, e.attr, fn, depth)
+            if isinstance(obj, tuple) and hasattr(obj, "_fields"):
+                if e.attr in obj._fields:
+                    return getattr(obj, e.attr)
+                cls_ = getattr(type(obj), "__geolint_cls__", None)
+                m = self.prog.lookup(cls_, e.attr) if cls_ is not None else None
+                if m is not None and m.is_property:
+                    return self.call(m, [obj], depth=depth + 1)
+                if m is not None:
+                    return ("boundmethod", m, obj)
+                if e.attr == "_replace":
+                    return obj._replace
+                raise Unsupported(f"attribute {e.attr} of a named tuple")
+            if isinstance(obj, EnumMember) and e.attr in ("value", "name"):
+                return getattr(obj, e.attr)
             if isinstance(obj, Obj):
                 if e.attr == "__class__":
                     return obj.__dict__.get("__cls__")
@@ -684,6 +820,10 @@ class Interp:
                 m = self.prog.lookup(cls, e.attr) if cls is not None else None
                 if m is not None and m.is_property:
                     return self.call(m, [obj], depth=depth + 1)
+                if m is not None and m.is_staticmethod:
+                    return m
+                if m is not None and m.is_classmethod:
+                    return ("boundmethod", m, cls)
                 if m is not None:
                     return ("boundmethod", m, obj)
                 raise Unsupported(f"attribute {e.attr} of the receiver")
@@ -710,6 +850,35 @@ class Interp:
 
             rec(0, dict(env))
             return set(out) if isinstance(e, ast.SetComp) else out
+        if isinstance(e, ast.Dict):
+            out_d = {}
+            for k_, v_ in zip(e.keys, e.values):
+                if k_ is None:
+                    out_d.update(self.expr(v_, env, fn, depth))
+                else:
+                    out_d[self.expr(k_, env, fn, depth)] = self.expr(v_, env, fn, depth)
+            return out_d
+        if isinstance(e, ast.Set):
+            return {self.expr(x, env, fn, depth) for x in e.elts}
+        if isinstance(e, ast.DictComp):
+            out_d = {}
+
+            def rec_d(gi, env2):
+                if gi == len(e.generators):
+                    out_d[self.expr(e.key, env2, fn, depth)] = self.expr(e.value, env2, fn, depth)
+                    return
+                g = e.generators[gi]
+                it = self.expr(g.iter, env2, fn, depth)
+                if isinstance(it, (Arr, Obj)):
+                    raise Unsupported("comprehension over an array")
+                for v in list(it):
+                    env3 = dict(env2)
+                    self.assign(g.target, v, env3, fn, depth)
+                    if all(self.truth(self.expr(c, env3, fn, depth)) for c in g.ifs):
+                        rec_d(gi + 1, env3)
+
+            rec_d(0, dict(env))
+            return out_d
         if isinstance(e, ast.Call):
             f = self.expr(e.func, env, fn, depth)
             args = []
@@ -733,6 +902,8 @@ class Interp:
                 if f.qualname in self.constructors:
                     return self.constructors[f.qualname](args, kwargs)
                 init = self.prog.lookup(f, "__init__")
+                if init is None and ("NamedTuple" in f.external_bases or self.is_dataclass(f)):
+                    return self.make_record(f, args, kwargs, fn, depth)
                 me = Obj(__cls__=f)
                 if init is not None:
                     self.call(init, [me] + args, kwargs, depth + 1)
